@@ -506,6 +506,8 @@ func (a *apiServer) PublishToSubject(ctx context.Context, req *client.PublishToS
 			AckInbox:      req.AckInbox,
 			CorrelationId: req.CorrelationId,
 			AckPolicy:     req.AckPolicy,
+			// A publish to a subject cannot carry an expected offset.
+			Offset: -1,
 		}
 		resp = new(client.PublishToSubjectResponse)
 	)
